@@ -463,6 +463,7 @@ package badger
 //@   assert[readonly-guard-delete] before call Delete : !vlog.opt.ReadOnly
 //@   assert[readonly-guard-truncate] before call Truncate : !vlog.opt.ReadOnly
 //@   assert[readonly-guard-create] before call createVlogFile : !vlog.opt.ReadOnly
+//@   assigns inferred
 
 //@ func (*logFile).Truncate
 //@   props C07
@@ -794,3 +795,4 @@ package badger
 //@   light
 //@   assert[encode-at-write-offset] before call encodeEntry : arg0 == lf && arg2 == e && arg3 == lf.writeAt
 //@   assert[offset-advances] before call zeroNextEntry : lf.writeAt == old(lf.writeAt) + uint32(ret0(encodeEntry#1))
+//@   assigns inferred
